@@ -45,6 +45,7 @@ def _init_worker(base, modname):
     # silence the real code's prints to stdout/stderr inside workers
     devnull = open(os.devnull, "w")
     os.dup2(devnull.fileno(), 1)
+    os.dup2(devnull.fileno(), 2)
     mod = importlib.import_module(modname)
     _WORKER_FN["mod"] = mod
 
